@@ -440,7 +440,7 @@ func (ctrler *StakeCtrler) ValidateTrx(ctx *ctrlertypes.TrxContext) xerrors.XErr
 				TotalPower: 0,
 			}
 		}
-		if len(ctrler.lastValidators) >= 3 {
+		if ctx.Exec && len(ctrler.lastValidators) >= 3 {
 			if xerr := ctrler.stakeLimiter.CheckLimit(_delg, txPower); xerr != nil {
 				return xerrors.ErrUpdatableStakeRatio.Wrap(xerr)
 			}
@@ -472,7 +472,7 @@ func (ctrler *StakeCtrler) ValidateTrx(ctx *ctrlertypes.TrxContext) xerrors.XErr
 			return xerrors.ErrNotFoundStake.Wrapf("you not stake owner")
 		}
 
-		if len(ctrler.lastValidators) >= 3 {
+		if ctx.Exec && len(ctrler.lastValidators) >= 3 {
 			if xerr := ctrler.stakeLimiter.CheckLimit(delegatee, -1*s0.Power); xerr != nil {
 				return xerrors.ErrUpdatableStakeRatio.Wrap(xerr)
 			}
